@@ -43,6 +43,12 @@ where
 			// ASCII-only UTF-16 and UTF-32 text is also valid UTF-8 (with NUL
 			// bytes), so UTF-8 validity alone must not select this path.
 			Ok(s) if matches!(Encoding::detect(&b), Encoding::Utf8) => {
+				// serde_yaml presents a stream that contains no document at
+				// all (empty, or only comments) as one empty document. The
+				// chunker on the reader path, like YAML itself, finds none.
+				if !chunker::has_document(s.as_bytes()) {
+					return Ok(());
+				}
 				for de in serde_yaml::Deserializer::from_str(s) {
 					output.transcode_from(de)?;
 				}
